@@ -171,4 +171,50 @@ def RuleSeparated (a : Alt) (S E : Int) : Prop :=
   (S < E → 2 * (a.dst.off - a.std.off) < E - S ∧ 2 * (a.std.off - a.dst.off) < E - S) ∧
   (¬ S < E → 2 * (a.dst.off - a.std.off) < S - E ∧ 2 * (a.std.off - a.dst.off) < S - E)
 
+
+/-! ### hypotheses of the composed wall-clock statement (table + footer rule) -/
+
+/-- `x` lies inside calendar year `y` -/
+def inYear (y x : Int) : Prop := daysBeforeYear y * 86400 < x ∧ x < daysBeforeYear (y + 1) * 86400
+
+/-- the rule is regular year by year: each rule transition and its two wall-clock images lie inside
+the calendar year, the start/end order is the same in consecutive years, and the two transitions of
+a year are `RuleSeparated` -/
+def RuleYearly (a : Alt) : Prop :=
+  ∀ y : Int,
+    inYear y (startAt a y) ∧ inYear y (startAt a y + a.std.off) ∧ inYear y (startAt a y + a.dst.off) ∧
+    inYear y (endAt a y) ∧ inYear y (endAt a y + a.std.off) ∧ inYear y (endAt a y + a.dst.off) ∧
+    ((startAt a y ≤ endAt a y) ↔ (startAt a (y + 1) ≤ endAt a (y + 1))) ∧
+    RuleSeparated a (startAt a y + a.std.off) (endAt a y + a.dst.off)
+
+/-- upper end `T + max prevOff newOff` of the wall-clock window of the LAST transition of the table
+(`p` = offset before the head) -/
+def hiLast (z : Zone) : Int → List Transition → Int
+  | p, [] => p
+  | p, [tr] => tr.time + max p (typeAt z tr.idx).off
+  | _, tr :: tr2 :: rest => hiLast z (typeAt z tr.idx).off (tr2 :: rest)
+
+/-- separation between the last table transition `T` (window upper end `hi`, new offset `aL`) and the
+footer rule, decidable per zone: the rule prescribes `aL` at `T` (what `TimeZone::new` validates), and
+every rule transition `X` of the years around `T` either is at or before `T` with its window not above
+`hi`, or is after `T` with its window strictly above `hi`.  A fixed rule must carry offset `aL`. -/
+def joinSeparatedB (z : Zone) : Bool :=
+  match z.rule, z.transitions.getLast? with
+  | some (.alt a), some last =>
+    let T := last.time
+    let aL := (typeAt z last.idx).off
+    let hi := hiLast z (typeAt z 0).off z.transitions
+    let y0 := yearOf (T / 86400)
+    decide ((ruleOff (.alt a) T).off = aL) &&
+    [y0 - 1, y0, y0 + 1].all (fun y => [startAt a y, endAt a y].all (fun X =>
+      (decide (X ≤ T) && decide (X + max a.std.off a.dst.off ≤ hi)) ||
+      (decide (T < X) && decide (hi < X + min a.std.off a.dst.off))))
+  | some (.fixed l), some last => decide (l.off = (typeAt z last.idx).off)
+  | _, _ => true
+
+def JoinSeparated (z : Zone) : Prop := joinSeparatedB z = true
+
+/-- what the harness evaluates per zone before applying the wall-clock oracles -/
+def zoneSeparatedB (z : Zone) : Bool := wellSeparatedB z && joinSeparatedB z
+
 end Chrono.Spec.Zone
